@@ -102,9 +102,9 @@ def run(ctx, prefix="C12:"):
     for nb, num in ((3, 400), (4, 400)) if not thorough else ((3, 6000), (4, 6000), (5, 4000), (6, 2000)):
         res = ctx.tlc("Pagination", None, workers=8, cfg_text=CFG % (nb, "1, 2, 3, 4", "TRUE", "TRUE", SIM[0], SIM[1]), simulate="num=%d" % num, depth=60, timeout=3000)
         add("simulated-%d-paragraphs" % nb, replay(ctx, res, "sim%d" % nb, prefix=prefix))
-    if thorough:
-        res = ctx.tlc("Pagination", None, workers=8, cfg_text=CFG % (3, "1, 2, 3, 4", "TRUE", "TRUE", SIM[0], SIM[1]), simulate="num=3000", depth=60, timeout=3000)
-        add("simulated-3-paragraphs-gotext", replay(ctx, res, "gotext", engine="gotext", prefix=prefix))
+    # (no family under the go-text engine: it does not honour the forced line breaks the documents are made of - the C11
+    # finding lines:gotext:pre-line - so the lines of a paragraph end up on one line box and the page capacity in LINES that
+    # the specification reasons about has no counterpart in the layout)
     ctx.traces = tot[2]
     return ctx.finish("model_checking", {
         "exhaustive": True, "evaluations": tot[0], "pages": tot[1], "families": cov,
